@@ -173,7 +173,10 @@ static bool distinct_parallels(const Cfg& c) { return c.cls != 0 && !(c.kind == 
 static double mfac(double f) { double fm = 1 - f; return std::fmax(1.0, std::fmax(1 / fm, fm * fm)); }
 static double origin_slack(const Cfg& c) { return distinct_parallels(c) ? 4 * 4.5e-14 * Math::degree() * c.a * mfac(c.f) * gflat(c) : 0.0; }
 // the scale that converts a ground error into a plane error: k for the conformal classes; Albers stretches east-west by k and north-south by 1/k
-static double kplane(const Cfg& c, double k) { return c.cls == 2 ? std::fmax(k, 1 / k) : k; }
+// (the Albers plane is the unit-scale plane stretched east-west by k0 and north-south by 1/k0: a plane error of the unit-scale map
+//  grows by max(k0, 1/k0); cur_k0 is the central scale of the object of the running op)
+static double& cur_k0() { static double k = 1; return k; }
+static double kplane(const Cfg& c, double k) { if (c.cls != 2) return k; double k0 = cur_k0(); if (!(k0 > 0 && k0 < 1e300)) k0 = 1; return std::fmax(1.0, k) * std::fmax(1.0, 1 / k0); }
 // the effect of that error of the origin on a point at distance R from it: the map is displaced along the central meridian
 // (magnified by the local scale), and the cone constant sin(lat0) changes with it, which bends the parallels: R^2/(2 a) per radian
 // (x = a m0 k1 lambda, y_curvature = x^2 n / (2 a m0) times k1 for Albers, over k1 for the conformal cone)
@@ -244,6 +247,7 @@ static Reg r_pt("pt", [](const Args& a) {
   Cfg c = parse(a); bool np = std::stoi(a[NCFG]) != 0; double lon0 = unhx(a[NCFG + 1]), lat = unhx(a[NCFG + 2]), lon = unhx(a[NCFG + 3]);
   cur_tag() = finding_class(c); const double kp = kappa(c.f);
   Obj o; std::string ex = build(c, o); if (!ex.empty()) { emit(ex); return; }
+  cur_k0() = o.k0();
   double x, y, g, k; o.Fwd(np, lon0, lat, lon, x, y, g, k);
   double rlat, rlon, rg, rk; o.Rev(np, lon0, x, y, rlat, rlon, rg, rk);
   emit(hx(x) + " " + hx(y) + " " + hx(g) + " " + hx(k) + " " + hx(rlat) + " " + hx(rlon) + " " + hx(rg) + " " + hx(rk));
@@ -264,7 +268,7 @@ static Reg r_pt("pt", [](const Args& a) {
     double ox = c11::dbl(w.x), oy = c11::dbl(w.y), oR = std::hypot(ox, oy), ok_ = c11::dbl(w.k);
     if (documented_domain(c)) {
       const Cond cd = cond_pt(c, np, lon0, lat, lon, w);
-      double tol = tol_plane(c, oR, w.kok ? kplane(c, ok_) : std::fmax(kplane(c, k), kplane(c, o.k0()))) + oslack(c, oR, k) + NULP * cd.xy;   // "true distance": at a pole of a non-polar cone the scale is infinite
+      double tol = tol_plane(c, oR, kplane(c, w.kok ? ok_ : k)) + oslack(c, oR, k) + NULP * cd.xy;   // "true distance": at a pole of a non-polar cone the scale is infinite
       // theta = n lambda (k^2 n lambda for Albers) is formed in binary64: 4 ulp of theta displace the point by rho |theta| 4 eps
       // (matters only for an Albers cone with k >> 1, whose image winds around the apex many times)
       if (c.cls != 0 && !P.cyl && !P.polar) { double ya = c11::dbl(c.cls == 1 ? P.kap * P.r0 : P.r0 / P.kap), rho = std::hypot(ox, ya - oy); if (std::isfinite(rho)) tol += 8 * std::numeric_limits<double>::epsilon() * std::fabs(c11::dbl(w.gamma)) * Math::degree() * rho; }
@@ -295,7 +299,7 @@ static Reg r_pt("pt", [](const Args& a) {
     // "about 10 nm": on the ellipsoid, or in the plane (where a scale far from 1 compresses one direction: Albers
     // north-south scale is 1/k, so near a pole with k >> 1 a sub-nanometre plane error is many nanometres of latitude)
     LD kew = k, kns = c.cls == 2 ? 1 / (LD)k : (LD)k;
-    double dist = (double)hypotl(dN, dE), tol = tol_ground(c, R, k), distp = (double)hypotl(dN * kns, dE * kew), tolp = tol_plane(c, R, kplane(c, o.k0()));   // the plane is a k0 (Albers: k0 or 1/k0) times enlarged copy of the ground
+    double dist = (double)hypotl(dN, dE), tol = tol_ground(c, R, k), distp = (double)hypotl(dN * kns, dE * kew), tolp = tol_plane(c, R, c.cls == 2 ? kplane(c, 1.0) : o.k0());   // the plane is a k0 (Albers: k0 or 1/k0) times enlarged copy of the ground
     if (!(dist <= tol || distp <= tolp)) badt("reverse-forward", "Reverse(Forward(" + num(lat) + ", " + num(lon) + ")) = (" + num(rlat) + ", " + num(rlon) + "), off by " + num(dist) + " m on the ground (" + num(distp) + " m in the plane), tolerance " + num(tol) + " (" + num(tolp) + ")");
     if (std::cos(lat * Math::degree()) > 1e-3 && R < 1e3 * c.a) {
       // k ~ 1/cos(lat): a latitude error within the closure tolerance changes it by tan(lat) * dlat
@@ -356,6 +360,7 @@ static Reg r_cfg("cfgprops", [](const Args& a) {
   Cfg c = parse(a); double tl[3] = {unhx(a[NCFG]), unhx(a[NCFG + 1]), unhx(a[NCFG + 2])}, lon = unhx(a[NCFG + 3]);
   cur_tag() = finding_class(c); const double kp = kappa(c.f);
   Obj o; std::string ex = build(c, o); if (!ex.empty()) { emit(ex); return; }
+  cur_k0() = o.k0();
   emit(hx(o.lat0()) + " " + hx(o.k0()));
   // inspectors: the constructor arguments come back unchanged
   { double ea = c.cls == 0 ? o.ps->EquatorialRadius() : c.cls == 1 ? o.lcc->EquatorialRadius() : o.alb->EquatorialRadius(), ef = c.cls == 0 ? o.ps->Flattening() : c.cls == 1 ? o.lcc->Flattening() : o.alb->Flattening();
@@ -531,6 +536,7 @@ static Reg r_sshist("sshist", [](const Args& a) {
   if (!e2.empty()) { emit(e2); return; }
   Cfg cl = c; cl.ss = 1; cl.sslat = h.back().first; cl.ssk = h.back().second; Obj ol; if (!build(cl, ol).empty()) { emit("!E"); return; }
   emit(hx(o.k0()) + " " + hx(ol.k0()));
+  cur_k0() = ol.k0();
   c11::Proj P = oracle(cl);
   // the scale on the last parallel is the last k
   { double x, y, g, k; o.Fwd(true, 0, cl.sslat, 0, x, y, g, k);
